@@ -81,6 +81,144 @@ theorem tick_number_site_passes_wrong_time :
     siteTime .tickNumber 8128000 5 8128000 8128000 0 ≠ 8128000 ∧ TimeClass.ok .tickNumber = false := by
   decide
 
+/-! ## The time argument derived from the tick structure (instead of assumed)
+
+The model does not take a call site's time argument from the implementation: it evaluates the site's translated
+expression (`SetSite.expr`) in the environment that the translated statement list of `Engine.tick` produces at the
+phase in which the site runs (`advance`, `enterInterp`).  The tables show that this is the tick's time. -/
+
+/-- every site passes an expression that denotes the tick's time in a fresh environment -/
+theorem sites_expr_ok : ∀ s ∈ setSites, s.expr.ok = true := by
+  decide +kernel
+
+/-- `Engine.tick`: every call that can reach a tag comes after `self._tick_time = tick_time`; the first-tick stamp
+    and every handed-down `tick_time` argument is the parameter itself. -/
+theorem engine_tick_assigns_before_use : freshOK false engineTickStmts = true := by
+  decide +kernel
+
+/-- `PInterpreter.tick_iterate_subticks`: the field is assigned from the parameter before any generator is stepped. -/
+theorem interp_tick_assigns_first : interpOK interpTickStmts = true := by
+  decide +kernel
+
+/-- The functions that hand the tick time down (`tick`, `on_tick`, `emit_on_tick`, `update_calculated_tags`,
+    `tick_iterate_subticks`) are always called with their caller's own `tick_time` parameter; the only origin is
+    the timer thread, which reads the wall clock. -/
+theorem tick_time_handed_down :
+    ∀ c ∈ tickTimeCalls, c.callee ∈ ["tick", "on_tick", "emit_on_tick", "update_calculated_tags", "tick_iterate_subticks"] →
+      c.expr = .param ∨ (c.func = "OneThreadTimer.ticker" ∧ c.expr = .wall) := by
+  decide +kernel
+
+/-- **Derived discipline, engine side.**  Start `Engine.tick(t)` in any environment (stale fields from the tick
+    before), with the wall clock reading `t`; run the translated statements through any sequence of phases
+    (non-structural calls).  At the phase reached, parameter, engine field and wall clock all read `t`. -/
+theorem phase_env_fresh (e0 : Env) (t : Time) (phases : List String) (hne : phases ≠ [])
+    (hs : ∀ p ∈ phases, structuralCall p = false) (e : Env) (rest : List Stmt)
+    (h : advanceMany phases engineTickStmts (e0.enterTick t t) = some (e, rest)) :
+    e.param = t ∧ e.engineField = t ∧ e.wall = t := by
+  have := advanceMany_fresh t phases engineTickStmts (e0.enterTick t t) false engine_tick_assigns_before_use
+    rfl (fun h => by cases h) hs hne e rest h
+  exact ⟨this.1, this.2.1, this.2.2⟩
+
+/-- **Derived discipline, interpreter side.**  The interpreter phase is entered with the tick's time as argument, and
+    inside it the interpreter's own field reads `t` as well. -/
+theorem interp_env_fresh (e0 : Env) (t : Time) (pre : List String) (hs : ∀ p ∈ pre, structuralCall p = false)
+    (e1 : Env) (st1 : List Stmt) (h1 : advanceMany pre engineTickStmts (e0.enterTick t t) = some (e1, st1))
+    (e : Env) (a : Option ArgExpr) (rest : List Stmt)
+    (h : advance "self.interpreter.tick" st1 e1 = some (e, a, rest)) :
+    ∃ x, a = some x ∧ evalArg e 0 0 x = t ∧
+      let ei := enterInterp interpTickStmts e (evalArg e 0 0 x)
+      ei.param = t ∧ ei.engineField = t ∧ ei.interpField = t ∧ ei.wall = t := by
+  have hall : advanceMany (pre ++ ["self.interpreter.tick"]) engineTickStmts (e0.enterTick t t) = some (e, rest) := by
+    clear hs
+    generalize engineTickStmts = st0 at h1
+    generalize e0.enterTick t t = ea at h1
+    induction pre generalizing st0 ea with
+    | nil =>
+      simp only [advanceMany, Option.some.injEq, Prod.mk.injEq] at h1
+      obtain ⟨rfl, rfl⟩ := h1
+      simp [advanceMany, h]
+    | cons p ps ih =>
+      simp only [advanceMany, List.cons_append] at h1 ⊢
+      cases hp : advance p st0 ea with
+      | none => simp [hp] at h1
+      | some r =>
+        obtain ⟨e2, a2, r2⟩ := r
+        simp only [hp] at h1 ⊢
+        exact ih r2 e2 h1
+  have hfresh := phase_env_fresh e0 t (pre ++ ["self.interpreter.tick"]) (by simp)
+    (by
+      intro p hp
+      rw [List.mem_append] at hp
+      rcases hp with hp | hp
+      · exact hs p hp
+      · simp only [List.mem_singleton] at hp; subst hp; decide +kernel) e rest hall
+  -- the argument: from the one-phase lemma, started where the previous phases ended
+  have hpre : ∃ f, freshOK f st1 = true ∧ e1.param = t ∧ (f = true → e1.engineField = t) := by
+    clear h hall hfresh
+    have gen : ∀ (pre : List String) (st0 : List Stmt) (ea : Env) (f0 : Bool), freshOK f0 st0 = true → ea.param = t →
+        (f0 = true → ea.engineField = t) → ∀ e1 st1, advanceMany pre st0 ea = some (e1, st1) →
+        ∃ f, freshOK f st1 = true ∧ e1.param = t ∧ (f = true → e1.engineField = t) := by
+      intro pre
+      induction pre with
+      | nil =>
+        intro st0 ea f0 h0 hp hf e1 st1 hm
+        simp only [advanceMany, Option.some.injEq, Prod.mk.injEq] at hm
+        obtain ⟨rfl, rfl⟩ := hm
+        exact ⟨f0, h0, hp, hf⟩
+      | cons p ps ih =>
+        intro st0 ea f0 h0 hp hf e1 st1 hm
+        simp only [advanceMany] at hm
+        cases ha : advance p st0 ea with
+        | none => simp [ha] at hm
+        | some r =>
+          obtain ⟨e2, a2, r2⟩ := r
+          simp only [ha] at hm
+          obtain ⟨q1, _, _, _, _, f', q6, q7⟩ := advance_fresh p t st0 ea f0 h0 hp hf e2 a2 r2 ha
+          exact ih r2 e2 f' q6 q1 q7 e1 st1 hm
+    exact gen pre engineTickStmts (e0.enterTick t t) false engine_tick_assigns_before_use rfl
+      (fun h => by cases h) e1 st1 h1
+  obtain ⟨f, hf1, hf2, hf3⟩ := hpre
+  obtain ⟨_, _, _, _, harg, _⟩ := advance_fresh "self.interpreter.tick" t st1 e1 f hf1 hf2 hf3 e a rest h
+  obtain ⟨x, hx, hxv⟩ := harg (by decide +kernel)
+  refine ⟨x, hx, hxv, ?_⟩
+  have hi := enterInterp_fresh interpTickStmts interp_tick_assigns_first e (evalArg e 0 0 x)
+  simp only
+  rw [hi.1, hi.2.1, hi.2.2.1, hi.2.2.2, hxv]
+  exact ⟨hfresh.1, hfresh.2.1, rfl, hfresh.2.2⟩
+
+/-- **`Disciplined` derived.**  In an environment where parameter, both fields and the wall clock read the tick's
+    time `t` (the two theorems above), every scanned call site evaluates its time argument to `t`: the operation the
+    model issues for it is `okAt t`.  (`forward` sites receive what their caller passed, i.e. `t`.) -/
+theorem site_time_is_tick_time (e : Env) (t oth : Time)
+    (h : e.param = t ∧ e.engineField = t ∧ e.interpField = t ∧ e.wall = t) :
+    ∀ s ∈ setSites, evalArg e t oth s.expr = t ∧
+      (∀ i v, (Op.set i v (evalArg e t oth s.expr)).okAt t) ∧
+      (∀ i v, v ≠ none → (Op.sim i v (evalArg e t oth s.expr)).okAt t) := by
+  intro s hs
+  have hok := sites_expr_ok s hs
+  obtain ⟨h1, h2, h3, h4⟩ := h
+  have : evalArg e t oth s.expr = t := by
+    cases hc : s.expr <;> simp [hc, ArgExpr.ok, evalArg] at hok ⊢ <;> assumption
+  exact ⟨this, fun i v => by simp [Op.okAt, this], fun i v hv => by simp [Op.okAt, this, hv]⟩
+
+/-- the bulk stamp of the first tick passes the tick's time -/
+theorem first_tick_stamp_is_tick_time (e0 : Env) (t : Time) (e : Env) (rhs : ArgExpr) (rest : List Stmt)
+    (h : advanceStamp engineTickStmts (e0.enterTick t t) = some (e, rhs, rest)) : evalArg e 0 0 rhs = t :=
+  advanceStamp_fresh t engineTickStmts (e0.enterTick t t) false engine_tick_assigns_before_use rfl
+    (fun h => by cases h) e rhs rest h
+
+/-- Non-vacuity: the phases of a real tick exist in the table and produce the fresh environment. -/
+example :
+    (advanceMany ["self.read_process_image", "self.interpreter.tick", "self._command_manager.tick"] engineTickStmts
+      ((⟨7, 7, 7, 7, 3⟩ : Env).enterTick 8128 8128)).map (fun r => r.1) = some ⟨8128, 8128, 7, 8128, 4⟩ := by
+  decide +kernel
+
+/-- Regression witness: `self._tick_time = tick_time` moved below `read_process_image()` is rejected. -/
+theorem late_field_assignment_rejected :
+    freshOK false [.call "self.uod.hwl.tick" none, .call "self.read_process_image" none,
+      .assign "self._tick_time" .param, .call "self.notify_tag_updates" none] = false := by
+  decide +kernel
+
 /-! ## The value set in a tick carries that tick's time -/
 
 /-- **Full statement, one tick.**  All stamping operations of the tick pass the tick's time `t`.  Then every tag
